@@ -357,6 +357,7 @@ def handle : Handler := fun op args impl =>
   -- the aligner behind phasing (C16): `Oracle/PhaseAlign.lean`
   | "atgalign", _ => PhaseAlignOps.handle op args impl
   | "phasent1", _ => PhaseAlignOps.handle op args impl
+  | "phaseaa1", _ => PhaseAlignOps.handle op args impl
   | _, _ => none
 
 end Gv.Oracle.PoolOps
